@@ -38,13 +38,18 @@ class Timeout(Exception):
 class Rec:
     """records every random draw made while a generator runs"""
 
-    def __init__(self):
+    def __init__(self, force=None):
         self.gaps, self.rands, self.samples, self.nprand, self.graphs = [], [], [], [], []
         self.in_geo = False
+        # force = None: record the real draws; "ones": geometric() always answers 1; a list: answers these, then +inf
+        self.force = force
+        self.forced = iter(force) if isinstance(force, list) else None
 
     def __enter__(self):
         GR, GU, GS = _mods()
-        self.saved = [(GR, "geometric", GR.geometric), (GU, "geometric", GU.geometric), (pyrandom, "random", pyrandom.random),
+        self.cliques = []
+        self.saved = [(GS, "_cliques_to_fill", GS._cliques_to_fill), (GS, "find_triangles", GS.find_triangles),
+                      (GR, "geometric", GR.geometric), (GU, "geometric", GU.geometric), (pyrandom, "random", pyrandom.random),
                       (pyrandom, "sample", pyrandom.sample), (np.random, "random", np.random.random),
                       (nx, "fast_gnp_random_graph", nx.fast_gnp_random_graph)]
         orig_geo = {id(GR): GR.geometric, id(GU): GU.geometric}
@@ -55,9 +60,13 @@ class Rec:
             def geo(p):
                 rec.in_geo = True
                 try:
-                    g = f(p)
+                    g = f(p)     # the real draw is always made (keeps the RNG stream and p's validity checks)
                 finally:
                     rec.in_geo = False
+                if rec.force == "ones":
+                    g = 1
+                elif rec.forced is not None:
+                    g = next(rec.forced, float("inf"))
                 rec.gaps.append(g)
                 return g
             return geo
@@ -83,6 +92,14 @@ class Rec:
             rec.graphs.append(G.copy())
             return G
 
+        def mk_cl(f):
+            def cl(*a, **kw):
+                r = f(*a, **kw)
+                rec.cliques.append([sorted(int(x) for x in c) for c in r])
+                return r
+            return cl
+
+        GS._cliques_to_fill, GS.find_triangles = mk_cl(GS._cliques_to_fill), mk_cl(GS.find_triangles)
         GR.geometric, GU.geometric = mk_geo(orig_geo[id(GR)]), mk_geo(orig_geo[id(GU)])
         pyrandom.random, pyrandom.sample, np.random.random, nx.fast_gnp_random_graph = rnd, sample, nprandom, gnp
         return self
@@ -108,10 +125,10 @@ def _alarm(signum, frame):
 LAST = {"rec": None}
 
 
-def guarded(fn, seconds=5.0):
-    """run fn() with the draws recorded and a wall-clock limit; returns (value | None, exception | None, rec)"""
+def guarded(fn, seconds=2.0, force=None):
+    """run fn() with the draws recorded (or forced) and a wall-clock limit; returns (value | None, exception | None, rec)"""
     old = signal.signal(signal.SIGALRM, _alarm)
-    rec = Rec()
+    rec = Rec(force)
     LAST["rec"] = rec
     try:
         with warnings.catch_warnings():
@@ -194,6 +211,30 @@ def pred_orders(snap, n, rounds):
     return fails
 
 
+def pred_forced(case, snap, n, size, mult):
+    """forced oracles (single-size calls with 0 < p < 1): all gaps 1 must visit every index; a first gap equal to the
+    number of indices must produce exactly the last combination; one beyond it nothing"""
+    force = case.get("force")
+    if force is None:
+        return []
+    combos = all_subsets(range(n), size)
+    got = Counter(tuple(e) for e in snap["edges"])
+    if force == "ones":
+        want = Counter({tuple(e): mult for e in combos})
+    elif case.get("force_kind") == "last":
+        want = Counter({tuple(combos[-1]): 1})
+    elif case.get("force_kind") == "firstlast":
+        want = Counter({tuple(combos[0]): 1, tuple(combos[-1]): 1})
+    elif case.get("force_kind") == "beyond":
+        want = Counter()
+    else:
+        return []
+    if got != want:
+        return [("boundary-index", f"forced gaps {force if force == 'ones' else case.get('force_kind')}: edges {snap['edges'][:4]}… "
+                                   f"expected {[list(e) for e in list(want)[:4]]}…")]
+    return []
+
+
 def downward_closed(snap):
     es = {frozenset(e) for e in snap["edges"]}
     for e in es:
@@ -232,7 +273,8 @@ def run_case(case):
 
     if f == "fast_random_hypergraph" or f == "random_hypergraph":
         n, ps, order = a["n"], a["ps"], a["order"]
-        H, ex, rec = guarded(lambda: getattr(xgi, f)(n, list(ps), order=None if order is None else list(order), seed=seed))
+        H, ex, rec = guarded(lambda: getattr(xgi, f)(n, list(ps), order=None if order is None else list(order), seed=seed),
+                             force=case.get("force"))
         orders = order if order is not None else [i + 1 for i in range(len(ps))]
         rounds = [(d + 1, p) for d, p in zip(orders, ps)]
         if ex is not None:
@@ -240,6 +282,7 @@ def run_case(case):
             return out(None, ex)
         snap = snapshot(H)
         fails += pred_common(H, snap, range(n)) + pred_sizes(snap, {s for s, p in rounds if p > 0}) + pred_orders(snap, n, rounds)
+        fails += pred_forced(case, snap, n, rounds[0][0] if rounds else 0, 1)
         if len({s for s, _ in rounds}) == len(rounds):
             fails += pred_nodup(H, snap)
         if f == "fast_random_hypergraph":
@@ -253,7 +296,8 @@ def run_case(case):
 
     if f == "uniform_erdos_renyi_hypergraph":
         n, m, p, multi, ptype = a["n"], a["m"], a["p"], a["multiedges"], a.get("p_type", "prob")
-        H, ex, rec = guarded(lambda: xgi.uniform_erdos_renyi_hypergraph(n, m, p, p_type=ptype, multiedges=multi, seed=seed))
+        H, ex, rec = guarded(lambda: xgi.uniform_erdos_renyi_hypergraph(n, m, p, p_type=ptype, multiedges=multi, seed=seed),
+                             force=case.get("force"))
         if ex is not None:
             if not (ptype == "degree" and type(ex).__name__ == "XGIError"):   # mean degree that gives q > 1: rejected
                 fails.append(("p1-raises" if p == 1 else "raises", repr(ex)[:200]))
@@ -262,6 +306,7 @@ def run_case(case):
         fails += pred_common(H, snap, range(n)) + pred_sizes(snap, {m}, "size-not-m")
         if not multi:
             fails += pred_nodup(H, snap)
+        fails += pred_forced(case, snap, n, m, math.factorial(m) if multi else 1)
         if ptype == "prob":
             if multi and p == 1:
                 want = Counter({tuple(e): math.factorial(m) for e in all_subsets(range(n), m)})
@@ -275,7 +320,7 @@ def run_case(case):
     if f == "uniform_HSBM":
         m, sizes, p = a["m"], a["sizes"], np.array(a["p"], dtype=float)
         n = sum(sizes)
-        H, ex, rec = guarded(lambda: xgi.uniform_HSBM(n, m, p, list(sizes), seed=seed))
+        H, ex, rec = guarded(lambda: xgi.uniform_HSBM(n, m, p, list(sizes), seed=seed), force=case.get("force"))
         if ex is not None:
             fails.append(("p1-raises" if (p == 1).any() else "raises", repr(ex)[:200]))
             return out(None, ex)
@@ -286,7 +331,7 @@ def run_case(case):
         must = Counter()
         cum = [sum(sizes[:b]) for b in range(len(sizes) + 1)]
         for block in itertools.product(range(len(sizes)), repeat=m):
-            if p[block] == 1:
+            if p[block] == 1 or (case.get("force") == "ones" and p[block] > 0):
                 for t in itertools.product(*[range(cum[b], cum[b + 1]) for b in block]):
                     if len(set(t)) == m:
                         must[tuple(sorted(t))] += 1
@@ -294,11 +339,13 @@ def run_case(case):
         if lacking:
             fails.append(("p1-incomplete", f"blocks with probability 1 lack {lacking[:2]}"))
         for e in got:
+            if len(e) != m or not set(e) <= set(range(n)):
+                continue   # already reported by the size / membership clauses
             blocks = {tuple(block_of[x] for x in perm) for perm in itertools.permutations(e)}
             if all(p[b] == 0 for b in blocks):
                 fails.append(("p0-has-edges", f"edge {list(e)} joins blocks of probability 0"))
                 break
-        if ((p == 0) | (p == 1)).all() and got != must:
+        if (((p == 0) | (p == 1)).all() or case.get("force") == "ones") and got != must:
             fails.append(("p1-incomplete", "0/1 tensor: edges differ from the block products"))
         req = {"f": f, "m": m, "sizes": list(sizes), "pks": [kind(x) for x in p.flatten()], "gaps": rec.gap_list()}
         return out(snap, None)
@@ -391,7 +438,7 @@ def run_case(case):
             return out(None, ex)
         snap = snapshot(H)
         fails += pred_common(H, snap, range(n))
-        if p == 0 and l + k // 2 + d - 1 <= n:
+        if l + k // 2 + d - 1 <= n:   # the ring lattice it starts from is d-uniform; rewiring must keep the edge size
             fails += pred_sizes(snap, {d}, "size-not-d")
         fails += pred_sizes(snap, set(range(1, d + 1)))
         return out(snap, None)
@@ -530,6 +577,15 @@ def run_case(case):
                 fails.append(("flag-not-cliques", "a graph edge is missing"))
             if all(p == 0 for p in ps) and any(len(e) > 2 for e in got):
                 fails.append(("p0-has-edges", "promotion probability 0 but a clique was filled"))
+            # which cliques won their coin: the recorded clique list (in the code's own order) zipped with the recorded draws
+            listed = rec.cliques[0] if rec.cliques else []
+            coins, picked = iter(rec.rands), []
+            if f == "flag_complex_d2":
+                picked = [c for c in listed if next(coins) <= ps[0]]
+            else:
+                for i, p in enumerate(ps[: top - 1]):
+                    picked += [c for c in listed if len(c) == i + 3 and next(coins) <= p]
+            req = {"f": "flag_complex_ps", "n": n, "edges": gedges, "max_order": top, "picked": picked, "extra": len(list(coins))}
         ordered = False
         return out(snap, None)
 
@@ -620,7 +676,7 @@ def gen_cases(ctx, scale=1):
 
     # fast_random_hypergraph / random_hypergraph
     for n in range(0, ctx.n(7, 9)):
-        for _ in range(ctx.n(20, 60) * scale):
+        for _ in range(ctx.n(20, 300) * scale):
             if rng.random() < 0.5:
                 order = None
                 ps = [rng.choice(PS) for _ in range(rng.randint(1, 3))]
@@ -638,7 +694,7 @@ def gen_cases(ctx, scale=1):
     for n in range(0, ctx.n(6, 9)):
         for d in range(0, 4):
             for p in PS:
-                for s in seeds(2 if q else 4):
+                for s in seeds(2 if q else 12):
                     add("fast_random_hypergraph", {"n": n, "ps": [p], "order": [d]}, s)
 
     # uniform_erdos_renyi_hypergraph
@@ -648,14 +704,34 @@ def gen_cases(ctx, scale=1):
                 for multi in (False, True):
                     if multi and n ** m > 5000:
                         continue
-                    for s in seeds(2 if q else 6):
+                    for s in seeds(2 if q else 15):
                         add("uniform_erdos_renyi_hypergraph", {"n": n, "m": m, "p": p, "multiedges": multi}, s)
             for s in seeds(1):
                 add("uniform_erdos_renyi_hypergraph", {"n": n, "m": m, "p": rng.choice([0, 0.5, 1.5, 3]), "multiedges": rng.random() < 0.5,
                                                        "p_type": "degree"}, s)
 
+    # forced gap oracles: the boundary indices of the skip-sampling loops, deterministically
+    for n in range(1, ctx.n(7, 9)):
+        for size in range(1, min(n, 4) + 1):
+            cnt = math.comb(n, size)
+            forced = [("ones", None), ([cnt, 5], "last"), ([cnt + 1, 1], "beyond")] + ([([1, cnt - 1, 3], "firstlast")] if cnt >= 2 else [])
+            for force, fk in forced:
+                extra = {"force": force, "force_kind": fk}
+                cases.append(dict({"f": "fast_random_hypergraph", "args": {"n": n, "ps": [0.5], "order": [size - 1]}, "seed": 1}, **extra))
+                cases.append(dict({"f": "uniform_erdos_renyi_hypergraph", "args": {"n": n, "m": size, "p": 0.5, "multiedges": False},
+                                   "seed": 1}, **extra))
+            if n ** size <= 5000:
+                cases.append({"f": "uniform_erdos_renyi_hypergraph", "args": {"n": n, "m": size, "p": 0.5, "multiedges": True}, "seed": 1,
+                              "force": "ones", "force_kind": None})
+    for _ in range(ctx.n(60, 600) * scale):
+        m = rng.choice([2, 2, 3])
+        nb = rng.randint(1, 3 if m == 2 else 2)
+        sizes = [rng.randint(1, 4 if m == 2 else 3) for _ in range(nb)]
+        p = np.array([rng.choice([0.0, 0.5, 0.5, 1.0]) for _ in range(nb ** m)]).reshape([nb] * m)
+        cases.append({"f": "uniform_HSBM", "args": {"m": m, "sizes": sizes, "p": p.tolist()}, "seed": 1, "force": "ones", "force_kind": None})
+
     # uniform_HSBM / HPPM
-    for _ in range(ctx.n(500, 4000) * scale):
+    for _ in range(ctx.n(500, 12000) * scale):
         m = rng.choice([2, 2, 3])
         nb = rng.randint(1, 3 if m == 2 else 2)
         sizes = [rng.randint(0 if rng.random() < 0.1 else 1, 4 if m == 2 else 3) for _ in range(nb)]
@@ -678,7 +754,7 @@ def gen_cases(ctx, scale=1):
                 add("complete_hypergraph", {"n": n, "max_order": o, "include_singletons": sing})
 
     # configuration model
-    for _ in range(ctx.n(600, 6000) * scale):
+    for _ in range(ctx.n(600, 20000) * scale):
         m = rng.randint(1, 4)
         nn = rng.randint(m, 8)
         ids = rng.sample(range(0, 12), nn) if rng.random() < 0.3 else list(range(nn))
@@ -686,7 +762,7 @@ def gen_cases(ctx, scale=1):
         add("uniform_hypergraph_configuration_model", {"k": k, "m": m}, rng.randrange(10 ** 6))
 
     # chung_lu / dcsbm (structure only)
-    for _ in range(ctx.n(150, 1500) * scale):
+    for _ in range(ctx.n(150, 5000) * scale):
         nn, ne = rng.randint(1, 7), rng.randint(1, 6)
         k1 = [[i, rng.randint(0, 4)] for i in range(nn)]
         k2 = [[j, rng.randint(0, 4)] for j in range(ne)]
@@ -708,7 +784,7 @@ def gen_cases(ctx, scale=1):
                     if q and rng.random() < 0.5:
                         continue
                     add("ring_lattice", {"n": n, "d": d, "k": k, "l": l})
-                    if n >= 1 and d >= 2 and rng.random() < 0.3:
+                    if d >= 2 and l + k // 2 + d - 1 <= n and rng.random() < 0.6:   # parameters for which the lattice is d-uniform
                         add("watts_strogatz_hypergraph", {"n": n, "d": d, "k": k, "l": l, "p": rng.choice([0, 0.3, 1])}, rng.randrange(10 ** 6))
     for l in range(0, 5):
         for c in range(0, 4):
@@ -725,10 +801,10 @@ def gen_cases(ctx, scale=1):
 
     # simplicial complexes
     for n in range(0, ctx.n(6, 7)):
-        for _ in range(ctx.n(25, 120) * scale):
+        for _ in range(ctx.n(25, 400) * scale):
             ps = [rng.choice(PS) for _ in range(rng.randint(1, 3))]
             add("random_simplicial_complex", {"n": n, "ps": ps}, rng.randrange(10 ** 6))
-    for _ in range(ctx.n(250, 2500) * scale):
+    for _ in range(ctx.n(250, 8000) * scale):
         n = rng.randint(0, 7)
         dens = rng.choice([0.2, 0.5, 0.8, 1.0])
         edges = [list(e) for e in itertools.combinations(range(n), 2) if rng.random() < dens]
